@@ -32,6 +32,9 @@ func (mgr *Manager) AddShield(id key.Shield, shield info.Shield) {
 		}
 	}
 
+	// Add the flat shield amount on top of the formula terms
+	baseHP += shield.ShieldValue
+
 	// Compute final shieldHP using shield HP formula
 	shieldHP := baseHP * (1 + source.GetProperty(prop.ShieldBoost)) * (1 + target.GetProperty(prop.ShieldTaken))
 
